@@ -10,6 +10,8 @@ import random
 import re
 import shutil
 import signal
+import subprocess
+import sys
 import tempfile
 import time
 
@@ -109,22 +111,83 @@ def parse_extension(out):
     return errs, ""
 
 
+def run_validator_file(text):
+    """the text written to a file and validated through its path (parse_program); the worker re-uses ONE path for all
+    its programs, as an application does that validates a file again after it has been edited"""
+    from pfdl_scheduler.utils.parsing_utils import parse_program
+
+    path = os.path.join(os.getcwd(), "validated_%d.pfdl" % os.getpid())
+    with open(path, "w", newline="") as f:
+        f.write(text)
+    buf = io.StringIO()
+    res = {"valid": None, "exc": None}
+    try:
+        with contextlib.redirect_stdout(buf):
+            r = parse_program(path)
+        res["valid"] = bool(r[0])
+    except Exception as ex:  # noqa: BLE001
+        res["exc"] = type(ex).__name__
+    res["out"] = buf.getvalue()
+    res["errs"], res["leftover"] = parse_console(res["out"])
+    return res
+
+
+NO_VERDICT_S = 25
+_IN_WORKER = [False]
+
+
+def confirm_no_verdict(text):
+    """the same text in a fresh interpreter, alone: True if it still gets no verdict within 90 s"""
+    code = ("import sys, io, contextlib\nsys.path.insert(0, %r)\nsys.setrecursionlimit(3000)\n"
+            "from pfdl_scheduler.utils.parsing_utils import parse_string\n"
+            "t = sys.stdin.read()\n"
+            "with contextlib.redirect_stdout(io.StringIO()):\n"
+            "    try:\n        parse_string(t)\n    except BaseException:\n        pass\n" % os.environ.get("PFDL_REPO", "/repo"))
+    try:
+        subprocess.run([sys.executable, "-c", code], input=text, text=True, capture_output=True, timeout=90, cwd=tempfile.gettempdir())
+        return False
+    except subprocess.TimeoutExpired:
+        return True
+    except Exception:  # noqa: BLE001
+        return False
+
+
 def run_validator(text, extension=False):
     """returns dict(valid, exc, out, errs)"""
     from pfdl_scheduler.utils.parsing_utils import parse_string
 
     buf = io.StringIO()
     res = {"valid": None, "exc": None}
+    # "validation terminates": a verdict normally takes milliseconds.  A text that gets none within NO_VERDICT_S seconds is
+    # re-run alone in a fresh process with a longer limit before anything is reported (confirm_no_verdict)
+    t0 = time.time()
+    prev = signal.alarm(NO_VERDICT_S) if _IN_WORKER[0] and len(text) < 20000 else None
     try:
         with contextlib.redirect_stdout(buf):
             r = parse_string(text, used_in_extension=extension)
         res["valid"] = bool(r[0]) if isinstance(r, tuple) and len(r) == 2 else "not-a-pair"
         res["has_process"] = r[1] is not None if isinstance(r, tuple) and len(r) == 2 else None
+    except CaseTimeout:
+        if prev is None or prev and prev - (time.time() - t0) <= 1:
+            raise  # the job's own limit
+        res["exc"] = "NoVerdict"
+        res["exc_msg"] = "no verdict within %d s" % NO_VERDICT_S
+        if not confirm_no_verdict(text):
+            # a loaded machine, not the validator: drop the case like any other harness time-out
+            if prev:
+                signal.alarm(max(1, int(prev - (time.time() - t0))))
+            raise
     except RecursionError:
         res["exc"] = "RecursionError"
     except Exception as ex:  # noqa: BLE001
         res["exc"] = type(ex).__name__
         res["exc_msg"] = str(ex)[:200]
+    finally:
+        if prev is not None:
+            if res["exc"] == "NoVerdict":
+                signal.alarm(150)  # the confirmation took its time: the job goes on with a fresh budget
+            else:
+                signal.alarm(max(1, int(prev - (time.time() - t0))) if prev else 0)
     out = buf.getvalue()
     res["out"] = out
     res["errs"], res["leftover"] = (parse_extension(out) if extension else parse_console(out))
@@ -331,6 +394,7 @@ def job_wf(args):
     seed, size = args
     rng = random.Random(seed)
     signal.signal(signal.SIGALRM, _alarm)
+    _IN_WORKER[0] = True
     signal.alarm(120)
     try:
         prog = gen_wf(rng, size)
@@ -375,7 +439,9 @@ def with_leading_lines(rng, prog, text):
     """blank lines / a comment header in front of the program (layout the language treats as insignificant)"""
     if rng.random() < 0.35:
         k = rng.randint(1, 5)
-        head = "".join(rng.choice(["\n", "# header comment\n", "   \n"]) for _ in range(k))
+        # comment lines may hold any character except a line feed: also the ones that other tools read as line ends
+        # (form feed, vertical tab, NEL, LS, PS) - they are no line ends for the language and must not move a line number
+        head = "".join(rng.choice(["\n", "# header comment\n", "   \n", "# page \x0c break\n", "# a\u2028b\x0bc\x85d\u2029e\n"]) for _ in range(k))
         if "\r\n" in text:
             head = head.replace("\n", "\r\n")
         shift_lines(prog, k)
@@ -455,6 +521,7 @@ def job_faults(args):
     seed, size, k = args
     rng = random.Random(seed)
     signal.signal(signal.SIGALRM, _alarm)
+    _IN_WORKER[0] = True
     signal.alarm(180)
     out = []
     try:
@@ -483,7 +550,8 @@ def job_faults(args):
                 run_validator("# earlier version\n" * rng.randint(3, 40) + text)
             r = run_validator(text)
             rx = run_validator(text, extension=True)
-            out.append({"cls": info["cls"], "whole_file": bool(info.get("whole_file")), "prog": mp_, "text": text,
+            rfile = run_validator_file(text) if (rng.random() < 0.3 and "\r" not in text) else None
+            out.append({"cls": info["cls"], "whole_file": bool(info.get("whole_file")), "prog": mp_, "text": text, "file": rfile,
                         "span": [target.get("line"), target.get("end_line", target.get("line"))] if target else None,
                         "res": r, "ext": rx, "nlines": text.count("\n") + 1, "where": info.get("where")})
         # a character outside the language, as the first or the last thing on the first line of a statement / definition
@@ -551,7 +619,7 @@ WEIRD = ["§", "\t", "ä", "\x00", "\x7f", "'", "$", "@", "\\", "\"", " ", "`"
 
 def mutate_text(rng, text):
     kind = rng.choice(["delete_tok", "dup_tok", "swap_tok", "replace_tok", "char_del", "char_ins", "truncate", "random_tokens",
-                       "weird_char", "line_del", "line_dup", "indent_shift", "json_break", "deep_parens", "huge_number", "huge_number", "tab_indent"])
+                       "weird_char", "line_del", "line_dup", "indent_shift", "json_break", "deep_parens", "huge_number", "huge_number", "tab_indent", "array_len_name"])
     toks = re.findall(r"\s+|[A-Za-z_][A-Za-z0-9_]*|\d+\.\d+|\d+|\"[^\"\n]*\"|==|!=|<=|>=|.", text)
     if kind == "tab_indent":
         # tabs in the indentation (the lexer skips tabs: the nesting is read from the blanks only)
@@ -562,6 +630,13 @@ def mutate_text(rng, text):
             if ind >= 4 and (which == "all" or (which == "one" and i == len(lines) // 2) or (which == "mixed" and rng.random() < 0.5)):
                 lines[i] = "\t" * (ind // 4) + " " * (ind % 4) + l[ind:]
         return kind, "\n".join(lines)
+    if kind == "array_len_name":
+        # the length of an array type written as a name (`number[parts_count]`): a message is printed by the visitor
+        ms = list(re.finditer(r"(:\s*[A-Za-z_][A-Za-z0-9_]*\[)(\d*)(\])", text))
+        if ms:
+            m = rng.choice(ms)
+            return kind, text[: m.start(2)] + rng.choice(["n", "parts_count", "len", "i"]) + text[m.end(2):]
+        return kind, text.replace("End", "    A\n        Out\n            xs: number[n]\nEnd", 1)
     if kind == "huge_number":
         # a number written with thousands of digits (Python refuses to convert integers above 4300 digits), anywhere
         # a number stands: loop limits, array lengths, expressions, struct literals; positive, negative, fraction, exponent
@@ -630,6 +705,7 @@ def job_text(args):
     seed, size, k = args
     rng = random.Random(seed)
     signal.signal(signal.SIGALRM, _alarm)
+    _IN_WORKER[0] = True
     signal.alarm(180)
     out = []
     try:
@@ -829,6 +905,7 @@ def job_run_accepted(args):
     seed, size, mode = args
     rng = random.Random(seed)
     signal.signal(signal.SIGALRM, _alarm)
+    _IN_WORKER[0] = True
     signal.alarm(120)
     try:
         prog = gen_wf(rng, size)
@@ -1190,6 +1267,12 @@ def _run(ctx, pool, res):
                                   "fault %s (%s): reported lines %r, construct spans lines %r" % (f["cls"], f.get("where"), lines, "1 (whole file)" if f["whole_file"] else span), f["text"], {"cls": f["cls"]})
                 if any(l < 1 or l > f["nlines"] for l in lines):
                     add_violation(res, seen, "C19", "line_outside_file", "reported lines %r, file has %d lines" % (lines, f["nlines"]), f["text"])
+                rf = f.get("file")
+                if rf is not None and rf["exc"] is None:
+                    fl_ = sorted(e["line"] for e in rf["errs"])
+                    if fl_ != sorted(lines):
+                        add_violation(res, seen, "C19", "file_vs_text_lines", "the text reports lines %r, the same text validated from a file (a path that held another program before) reports %r"
+                                      % (sorted(lines), fl_), f["text"], {"cls": f["cls"]})
                 if rx["exc"] is None:
                     xl = sorted(e["line"] for e in rx["errs"])
                     if xl != sorted(lines) or rx["leftover"]:
